@@ -1101,3 +1101,85 @@ Proof.
     rewrite Hy in Hy'. destruct Hy'. }
   rewrite last_app_nonempty by exact Hne. apply Hall. apply last_In. exact Hne.
 Qed.
+
+(* ================================================================== read_multiscale_params *)
+
+Lemma read_params_none steps : forallb (fun s => negb (sc_is_msc s)) steps = true ->
+  read_multiscale_params steps = (1, 1).
+Proof.
+  intros H. unfold read_multiscale_params.
+  assert (E : filter sc_is_msc steps = []).
+  { induction steps as [|s r IH]; [reflexivity|]. cbn [forallb] in H. apply andb_true_iff in H as [H1 H2].
+    cbn [filter]. apply negb_true_iff in H1. rewrite H1. apply IH. exact H2. }
+  rewrite E. reflexivity.
+Qed.
+
+Lemma read_params_first pre s post : forallb (fun s => negb (sc_is_msc s)) pre = true -> sc_is_msc s = true ->
+  read_multiscale_params (pre ++ s :: post)
+  = (dflt (sc_num_scales s) PYRAMID_NUM_SCALES, dflt (sc_scale_factor s) PYRAMID_SCALE_FACTOR).
+Proof.
+  intros H Hs. unfold read_multiscale_params.
+  assert (E : filter sc_is_msc (pre ++ s :: post) = s :: filter sc_is_msc post).
+  { induction pre as [|x r IH]; cbn [app filter].
+    - rewrite Hs. reflexivity.
+    - cbn [forallb] in H. apply andb_true_iff in H as [H1 H2]. apply negb_true_iff in H1. rewrite H1.
+      apply IH. exact H2. }
+  rewrite E. reflexivity.
+Qed.
+
+(* ================================================================== the statement about one finer level of a run *)
+
+(* what the property says about execution i + 1 (scale s) of a run over n scales, whose
+   coarser level (scale s + 1) produced the maps [l] *)
+Definition finer_level_holds (marge sf dmin dmax H W : Z) (n : nat) (wr : bool) (lvls : list level)
+           (i : nat) (l : level) (s : nat) : Prop :=
+  exists g gr,
+    nth_error (run_grids IB marge sf dmin dmax H W n wr lvls) (S i) = Some (GMap g, gr) /\
+    (level_ok (lv_ws l) (fst (lv_left l)) ->
+     let D := fst (lv_left l) in let V := snd (lv_left l) in let u := user_interval dmin dmax sf s in
+     nr g = sf * nr D /\ nc g = sf * nc D /\
+     finer_spec (lv_ws l) marge sf (nr D) (nc D) (px D) (px V) (fst u) (snd u) (sf * nr D) (sf * nc D) (px g)) /\
+    (forall dv, lv_right l = Some dv -> level_ok (lv_ws l) (fst dv) ->
+     let D := fst dv in let V := snd dv in let u := mirrored (user_interval dmin dmax sf s) in
+     exists g', gr = Some (GMap g') /\ nr g' = sf * nr D /\ nc g' = sf * nc D /\
+     finer_spec (lv_ws l) marge sf (nr D) (nc D) (px D) (px V) (fst u) (snd u) (sf * nr D) (sf * nc D) (px g')).
+
+Lemma finer_interval_run' marge sf dmin dmax H W n wr lvls i l s :
+  1 <= sf -> n = S (length lvls) -> nth_error lvls i = Some l -> (s + 1 = n - 1 - i)%nat ->
+  (sf ^ Z.of_nat (S s) | dmin) -> (sf ^ Z.of_nat (S s) | dmax) ->
+  finer_level_holds marge sf dmin dmax H W n wr lvls i l s.
+Proof. exact (finer_interval_run marge sf dmin dmax H W n wr lvls i l s). Qed.
+
+(* the witness of the recorded finding: disp [-7, 4], scale_factor 3, two scales; a 3 x 3
+   coarse map (window 3) whose centre is invalid: every coarse pixel is invalid or on the
+   border, the whole level 0 must search [-7, 4] and searches 3 * int(-7/3), 3 * int(4/3) *)
+Definition wit_level : level :=
+  mkLevel 3 (mkArr 3 3 (fun _ _ => Some 0%Q), mkArr 3 3 (fun r c => if (r =? 1) && (c =? 1) then 1 else 0)) None.
+
+Lemma witness_grid :
+  exists g, nth_error (run_grids IB 0 3 (-7) 4 9 9 2 false [wit_level]) 1 = Some (GMap g, None) /\
+            px g 0 0 = (Some (-6 # 1)%Q, Some (3 # 1)%Q).
+Proof. eexists. split; [reflexivity|]. vm_compute. reflexivity. Qed.
+
+Lemma witness_refutes :
+  ~ (forall marge sf dmin dmax H W n wr lvls i l s,
+      1 <= sf -> n = S (length lvls) -> nth_error lvls i = Some l -> (s + 1 = n - 1 - i)%nat ->
+      finer_level_holds marge sf dmin dmax H W n wr lvls i l s).
+Proof.
+  intro Hfull.
+  destruct (Hfull 0 3 (-7) 4 9 9 2%nat false [wit_level] 0%nat wit_level 0%nat) as (g & gr & Hn & Hl & _);
+    try reflexivity; try lia.
+  destruct witness_grid as (g' & Hn' & Hg'). rewrite Hn' in Hn. injection Hn as <- _.
+  assert (Hok : level_ok (lv_ws wit_level) (fst (lv_left wit_level))).
+  { unfold level_ok. vm_compute. repeat split; discriminate. }
+  destruct (Hl Hok) as (_ & _ & Hspec). cbv zeta in Hspec.
+  destruct (Hspec 0 0) as (pr & pc & lo & hi & A & B & _ & _ & HG & HP).
+  { vm_compute. split; [discriminate | reflexivity]. }
+  { vm_compute. split; [discriminate | reflexivity]. }
+  rewrite Hg' in HG. injection HG as <- <-.
+  unfold near_parent in A, B. change (0 / 3) with 0 in A, B.
+  assert (Hpr : pr = -1 \/ pr = 0 \/ pr = 1) by lia.
+  assert (Hpc : pc = -1 \/ pc = 0 \/ pc = 1) by lia.
+  destruct Hpr as [-> | [-> | ->]], Hpc as [-> | [-> | ->]];
+    vm_compute in HP; destruct HP as [HP _]; discriminate HP.
+Qed.
